@@ -13,6 +13,7 @@ MB_GRID = [1, 2, 3, 4, 5, 6, 7, 8, 9, 10, 11, 12, 13, 16, 20, 32, 40, 64, 100, 1
            500, 508, 509, 510, 511, 1000, 1274, 1275, 1276, 1277, 1278, 1500, 2000, 2551, 2552, 2553, 2554, 3000, 3825, 3828, 3829,
            3999, 4000]
 TOLC, TOLS, FLOORS = 1, 60, 24000                          # the constants of spec/cfg/CvbrTrace.cfg (R3)
+TOLM = 1                                                   # multistream, every sub-packet MDCT-only (class M)
 
 # Deviations found by this check that the coordinator has not (yet) moved into known_findings.json.
 # Each entry: dict(id, property, key, what).  Matching is done by kf_match() below.
@@ -197,6 +198,34 @@ def cvbr_exec(rng, q, ms=None, seconds=3.0, switch=True):
     return head(rng, kind, ch, 0) + " | " + " ".join(ops)
 
 
+MS_LAYOUTS = [("L1:1", 2), ("L2:2", 4), ("L2:1", 3), ("L3:2", 5), ("L4:4", 8), ("L3:0", 3), ("L4:3", 7),
+              ("F0", 2), ("F1", 2), ("F1", 3), ("F1", 4), ("F1", 5), ("F1", 6), ("F1", 7), ("F1", 8), ("F255", 2), ("F2", 4), ("F2", 6)]
+
+
+def ms_cvbr_execs(rng, quick):
+    """constrained VBR with an explicit bitrate on multistream / surround encoders (plain layouts with 0..4 coupled streams, families
+    0 / 1 with 2..8 channels, 255, ambisonics through the surround creator), every packet duration from 2.5 ms up, demanding input
+    (full-scale noise, noise-burst trains, dense harmonic tones, sweeps) for seconds without a control call in between, so that the
+    long-term rate of the whole multistream packet settles and is judged against the REQUESTED bitrate (class M of CvbrTrace)"""
+    out = []; k = rng.randrange(len(MS_LAYOUTS))
+    for q in QS:
+        n = (8 if q <= 8 else 3) if quick else (3 * len(MS_LAYOUTS) if q <= 8 else len(MS_LAYOUTS))
+        secs = {1: 2.0, 2: 2.5, 4: 3.0, 8: 5.0}.get(q, 6.0) * (1.0 if quick else 1.5)
+        for i in range(n):
+            kind, ch = MS_LAYOUTS[k % len(MS_LAYOUTS)]; k += 1
+            fs = rng.choice([48000, 48000, 48000, 24000, 16000])
+            app = rng.choice([2051, 2051, 2049])        # restricted low delay: every stream MDCT-only whatever the rate
+            br = rng.choice([24000, 32000, 32000, 48000, 64000, 96000, 128000]) * ch
+            ops = ["x%d" % rng.choice([0, 3, 5, 8, 10]), "v1", "c1", "b%d" % br, "d%d" % q, "m4000"]
+            tot, target = 0, int(secs * 400)
+            while tot < target:
+                m = rng.choice([400, 800, 1200]) // q + 1
+                ops += ["s%d" % rng.choice([3, 3, 3, 9, 10, 2, 8, 7]), "e%d" % m]
+                tot += m * q
+            out.append(head(rng, kind, ch, 0, fs=fs, app=app) + " | " + " ".join(ops))
+    return out
+
+
 def dtx_cbr_execs(rng, n):
     """VBR off with DTX on and packets of several frames: silence long enough for DTX to start and to refresh inside a packet, so that
     packets occur in which some frames are DTX frames and others are not (they are not DTX packets and must have the CBR size)"""
@@ -339,13 +368,14 @@ class Win:
 
     def reset(self):
         self.t = 0; self.phi = 0.0; self.pts = [(0, 0.0)]; self.old = None; self.mx = 0.0; self.tg = [(0, 0.0)]; self.g = 0.0; self.oldg = None
+        self.oldt = None; self.tt = [0]
 
     def step(self, q, bits, target, ft):
         self.t += q; self.phi += bits - target; self.g += target; self.mx = max(self.mx, ft)
         while self.pts and self.t - self.pts[0][0] >= 400:
             t0, p0 = self.pts.pop(0); _, g0 = self.tg.pop(0)
             if self.old is None or p0 < self.old:
-                self.old = p0; self.oldg = g0
+                self.old = p0; self.oldg = g0; self.oldt = t0
         res = None
         if self.old is not None:
             res = (self.phi - self.old, self.g - self.oldg, self.mx)
@@ -357,18 +387,20 @@ class Win:
 OBS = dict(mdct_windows_after_hybrid=0, packets=0, executions=0, cbr_packets=0, cbr_exact=0, dtx_shaped_in_cbr=0, max_fills=0, speech_layer_bust_packets=0, errors_buffer_too_small=0, other_errors=0,
            tiny_buffer_calls=0, cbr_packets_with_some_dtx_frames=0, cvbr_windows_mdct=0, cvbr_windows_any=0, ms_packets=0,
            worst_mdct_excess_over_frame_target=0.0, worst_mdct_excess_ratio=0.0, worst_any_excess_ratio=0.0, worst_ms_excess_ratio=0.0,
-           guard_checked=0)
+           guard_checked=0, cvbr_windows_ms_mdct=0, ms_mdct_packets_by_q={}, ms_mdct_coupled_layout_windows=0,
+           worst_ms_mdct_excess_over_bucket=0.0, worst_ms_mdct_excess_ratio=0.0, worst_ms_mdct_longrun_ratio=0.0,
+           split_sums_checked=0, worst_split_sum_minus_request=-10**9)
 
 
 def stats(ctx, out):
-    cf = None; es = None; n = 0; wc = Win(); ws = Win(); interesting = False; hyb = False
+    cf = None; es = None; n = 0; wc = Win(); ws = Win(); wm = Win(); interesting = False; hyb = False
     with open(out) as f:
         for ln in f:
             n += 1
             e = json.loads(ln)
             k = e["k"]
             if k == "new":
-                cf = e; es = dict(br=-1000, vbr=1, cvbr=1); wc.reset(); ws.reset(); interesting = False; hyb = False
+                cf = e; es = dict(br=-1000, vbr=1, cvbr=1); wc.reset(); ws.reset(); wm.reset(); interesting = False; hyb = False
             elif k == "set":
                 if e["ret"] == 0:
                     if e["rq"] == 4002:
@@ -380,7 +412,7 @@ def stats(ctx, out):
                         es["vbr"] = e["v"]
                     elif e["rq"] == 4020:
                         es["cvbr"] = e["v"]
-                wc.reset(); ws.reset()
+                wc.reset(); ws.reset(); wm.reset()
             elif k == "enc":
                 OBS["packets"] += 1; OBS["guard_checked"] += 1 if e["g"] == 1 else 0
                 r, mb, q = e["r"], e["mb"], e["q"]
@@ -390,20 +422,20 @@ def stats(ctx, out):
                     OBS["tiny_buffer_calls"] += 1
                 if r < 0:
                     OBS["errors_buffer_too_small" if r == -2 else "other_errors"] += 1
-                    wc.reset(); ws.reset()
+                    wc.reset(); ws.reset(); wm.reset()
                     if r == -2:
                         ctx.nontrivial.add(hash(("bts", cf["ms"], cf["S"], mb, q)))
                     continue
                 hs = [e["h"]] if not cf["ms"] else e["hs"]
                 offs = [0] if not cf["ms"] else e["off"]
-                pay = 0; cnt = 1; celt = True; okp = len(hs) == cf["S"] or not cf["ms"]
+                pay = 0; cnt = 1; cmin = 99; celt = True; okp = len(hs) == cf["S"] or not cf["ms"]
                 for i, h in enumerate(hs):
                     ln_i = (offs[i + 1] if i + 1 < len(offs) else r) - offs[i]
                     x = _hdr_len(h, ln_i, cf["ms"] == 1 and i < len(hs) - 1)
                     if x is None:
                         okp = False
                         break
-                    pay += ln_i - x[0]; cnt = max(cnt, x[1]); celt = celt and h[0] >= 128
+                    pay += ln_i - x[0]; cnt = max(cnt, x[1]); cmin = min(cmin, x[1]); celt = celt and h[0] >= 128
                 if not cf["ms"] and r == 2 and e["h"][0] % 4 == 0 and e["h"][1] == 0 and es["vbr"] == 1:
                     OBS["speech_layer_bust_packets"] += 1          # TOC + one zero byte (finding F4 of C20): no C05 clause speaks about it
                 if not cf["ms"] and 96 <= e["h"][0] < 128:
@@ -434,6 +466,19 @@ def stats(ctx, out):
                             interesting = True
                     else:
                         wc.reset()
+                    if cf["ms"] and celt and es["br"] >= FLOORS * cf["ch"]:
+                        w = wm.step(q, 8 * pay, tgt, tgt / cmin + 16 * cf["S"])
+                        OBS["ms_mdct_packets_by_q"][q] = OBS["ms_mdct_packets_by_q"].get(q, 0) + 1
+                        if w:
+                            OBS["cvbr_windows_ms_mdct"] += 1
+                            OBS["ms_mdct_coupled_layout_windows"] += 1 if cf["C"] > 0 else 0
+                            OBS["worst_ms_mdct_excess_over_bucket"] = max(OBS["worst_ms_mdct_excess_over_bucket"], round(w[0] / w[2], 4))
+                            OBS["worst_ms_mdct_excess_ratio"] = max(OBS["worst_ms_mdct_excess_ratio"], round(w[0] / w[1], 4))
+                            if w[1] >= 2 * tgt * 400 / q:       # windows of two seconds or more
+                                OBS["worst_ms_mdct_longrun_ratio"] = max(OBS["worst_ms_mdct_longrun_ratio"], round(w[0] / w[1], 4))
+                            interesting = True
+                    else:
+                        wm.reset()
                     if es["br"] >= FLOORS * cf["ch"]:
                         w = ws.step(q, 8 * pay, tgt, ft)
                         if w:
@@ -444,7 +489,10 @@ def stats(ctx, out):
                     else:
                         ws.reset()
                 else:
-                    wc.reset(); ws.reset()
+                    wc.reset(); ws.reset(); wm.reset()
+                if cf["ms"] and es["vbr"] == 1 and es["br"] >= FLOORS * cf["ch"] and len(e.get("sbr", [])) == cf["S"]:
+                    OBS["split_sums_checked"] += 1
+                    OBS["worst_split_sum_minus_request"] = max(OBS["worst_split_sum_minus_request"], sum(e["sbr"]) - es["br"])
                 if len(ctx.samples) < 4 and es["vbr"] == 0 and r > 2 and OBS["packets"] % 97 == 0:
                     ctx.sample(dict(encoder={x: cf[x] for x in ("ms", "fs", "ch", "S")}, settings=dict(es), event={x: e[x] for x in e if x not in ("h", "hs")}))
             elif k == "end":
@@ -627,6 +675,11 @@ def run(ctx):
                        "for explicit bitrates only: (a) packets coded by the MDCT layer alone, where the constrained-VBR reservoir is in charge: "
                        "<= target*(1+%d%%) + 2*(one frame's target + 16 bit); (b) any mode, bitrate >= %d b/s per channel: <= target*(1+%d%%) + the same bucket "
                        "(the speech layer has its own looser rate control: measured overshoot up to ~28%% in that domain, far more below it)" % (TOLC, FLOORS, TOLS),
+                       "long-term rate, multistream (class M): constrained VBR, explicit bitrate >= %d b/s per channel, every sub-packet coded by the MDCT layer alone: "
+                       "the frame bytes of ALL streams together (TOC, frame-count, padding and self-delimiting length bytes left out: conservative reading) over every "
+                       "window of >= 1 s <= REQUESTED bitrate*(1+%d%%) + 2*(one frame's target of the whole request + 16 bit per stream); measured on the pinned tree: "
+                       "<= 0.9963 x one such bucket with no percentage, over plain layouts with 0-4 coupled streams, surround families 0/1 (2-8 channels), 255 and 2, "
+                       "all nine durations (2.5 ms .. 120 ms)" % (FLOORS, TOLM),
                        "OPUS_BUFFER_TOO_SMALL is accepted only below 4 bytes per stream; every other error return of a call with legal arguments is a violation",
                        "float build; DRED not compiled in"]
     if ctx.replay:
@@ -652,6 +705,7 @@ def run(ctx):
     fast += pad_sweep_execs(rng, quick)
     fast += bust_execs(rng, 40 if quick else 600, 0)
     fast += mode_switch_cvbr_execs(rng, 30 if quick else 300)
+    fast += ms_cvbr_execs(rng, quick)
     slow = boundary_execs(rng, 1)                      # sanitizer build, exact-size buffers
     for i in range(60 if quick else 700):
         slow.append(walk_exec(rng, exact=1, steps=rng.randint(8, 16), small=(i % 2 == 0)))
@@ -711,10 +765,12 @@ def run(ctx):
         stats(ctx, out)
     if not ctx.violations:
         for out, rej in DRIFTS[:3]:
-            ctx.spec_drift("Cvbr", "the peeked reservoir does not follow Cvbr!BucketStep (or OPUS_AUTO is not Cvbr!AutoBitrate) at %s line %s: %s" % (
+            ctx.spec_drift("Cvbr", "the peeked reservoir does not follow Cvbr!BucketStep (or OPUS_AUTO is not Cvbr!AutoBitrate, or the per-stream bitrates of a multistream encoder sum to more than the request) at %s line %s: %s" % (
                 os.path.basename(out), rej, strip_ev(vf.file_line(out, rej or 1))))
-    ctx.notes["thresholds"] = dict(TolC_percent=TOLC, TolS_percent=TOLS, FloorS_bps_per_channel=FLOORS, bucket="2*(frame target + 16 bit)",
+    ctx.notes["thresholds"] = dict(TolC_percent=TOLC, TolS_percent=TOLS, TolM_percent=TOLM, FloorS_bps_per_channel=FLOORS, bucket="2*(frame target + 16 bit)",
+                                   bucket_multistream_mdct="2*(frame target of the whole request + 16 bit per stream)",
                                    window="any window >= 1 s starting at a recorded point")
+    OBS["ms_mdct_packets_by_q"] = {str(a): b for a, b in sorted(OBS["ms_mdct_packets_by_q"].items())}
     ctx.notes["observed"] = OBS
 
 
@@ -764,12 +820,14 @@ META = dict(
                 "streams, surround families 0/1/2/255 and plain layouts) encoders; TLC judges every call: return value in 1..max_data_bytes (or "
                 "OPUS_BUFFER_TOO_SMALL for a buffer below 4 bytes per stream), guard bytes intact (plus ASan/UBSan with exact-size heap buffers), the packet "
                 "parses under Framing!Parse with the requested duration, exact CBR size from the first packet after any change, OPUS_BITRATE_MAX fills, and "
-                "the long-term rate under constrained VBR over every >= 1 s window."),
+                "the long-term rate under constrained VBR over every >= 1 s window - for multistream / surround encoders the payload of all streams together "
+                "against the requested bitrate (1 % + two buckets when every stream codes with the MDCT layer alone, at every duration from 2.5 ms)."),
     level_note=("Trusted: TLC, the Json module, the harness's canary comparison. Readings (R2): multistream CBR is held to 'one constant size within one "
                 "byte of round(bitrate x duration / 8), clipped' because the property leaves the per-stream split open (the pinned encoder rounds down); "
                 "OPUS_AUTO under CBR is held to a constant size (its value is not documented); the constrained-VBR rate clause is asserted on the payload "
                 "(framing bytes left out) for explicit bitrates, tightly (1 % + two frames' targets) where the MDCT layer's reservoir is in charge and loosely "
                 "(60 %, >= 24 kb/s per channel) elsewhere, because the speech layer's rate control overshoots by up to ~28 % there and far more at lower rates "
-                "(measured; thresholds in spec/cfg/CvbrTrace.cfg and in coverage.thresholds/observed). The implementation is exercised on enumerated and "
+                "(measured; thresholds in spec/cfg/CvbrTrace.cfg and in coverage.thresholds/observed). That the per-stream bitrates (OPUS_GET_BITRATE of every stream) sum to no "
+                "more than the request is bound as model conformance only (SPEC-DRIFT; Surround!SumTheorem, decided by G03); the verdict rests on the measured bytes. The implementation is exercised on enumerated and "
                 "sampled histories, not on all signals; windows start at recorded points (one per 50 ms)."),
 )
